@@ -31,8 +31,10 @@ pub struct GMsg {
 #[derive(Clone, Debug, Serialize, Deserialize)]
 pub struct Case {
     pub chunk_size: u32,
-    /// complete messages sent first, one after another, so later headers can be compressed
-    pub pre: Vec<GMsg>,
+    /// complete messages sent first, one after another (palette-generated foreign operations on
+    /// several chunk stream ids, so compressed headers that refer back across messages on OTHER
+    /// chunk streams are frequent)
+    pub pre: Vec<FOp>,
     /// the interleaved group: distinct chunk stream ids
     pub group: Vec<GMsg>,
     /// merge choices: at each step picks among the messages that still have chunks to send;
@@ -51,20 +53,25 @@ pub fn eval(case: &Case) -> Verdict {
     let cs = case.chunk_size.clamp(1, 400);
     let mut enc = RefChunkEnc::new();
     let mut stream = Vec::new();
+    let mut n_pre = 0usize;
     if cs != 128 {
         stream.extend_from_slice(&enc.set_chunk_size(cs, 0));
+        n_pre += 1;
     }
     let mut ts_by: std::collections::HashMap<u32, u32> = std::collections::HashMap::new();
+    {
+        // the sequential prefix; in-band chunk-size changes are dropped so that `cs` stays in force
+        let pre: Vec<FOp> = case.pre.iter().filter(|o| matches!(o, FOp::Msg(_))).cloned().collect();
+        let mut out = ForeignOut { stream: Vec::new(), expected: Vec::new(), fmts: Vec::new(), non_minimal_csid: false };
+        encode_foreign_into(&mut enc, &mut ts_by, &pre, &mut out);
+        n_pre += out.expected.len();
+        stream.extend(out.stream);
+    }
     let mut next_ts = |csid: u32, dts: u32| -> u32 {
         let e = ts_by.entry(csid).or_insert(0);
         *e = e.wrapping_add(dts);
         *e
     };
-    for m in &case.pre {
-        let msg = build(m, next_ts(m.csid, m.dts), cs);
-        let e = enc.encode(&msg, &EncOpts { csid: m.csid, want_fmt: m.want_fmt, three_byte: false, fmt0_continuation: false });
-        stream.extend(e.chunks.concat());
-    }
     // distinct chunk stream ids inside the group (the generator draws them distinct; enforce)
     let mut group: Vec<&GMsg> = Vec::new();
     for m in &case.group {
@@ -103,13 +110,14 @@ pub fn eval(case: &Case) -> Verdict {
         idx[pick] += 1;
     }
     // expected deliveries: the reference decoder
-    let mut rd = RefChunkDec::new(true);
+    let three_byte_pre = case.pre.iter().any(|o| matches!(o, FOp::Msg(m) if m.three_byte && m.csid >= 64 && m.csid < 320));
+    let mut rd = RefChunkDec::new(!three_byte_pre);
     let dec = match rd.feed(&stream).and_then(|d| rd.finish().map(|_| d)) {
         Ok(d) => d,
         Err(e) => return Verdict::Harness(format!("RefChunkDec rejects the interleaved reference stream: {}", e)),
     };
     let want: Vec<Msg> = dec.iter().map(|d| d.msg.clone()).collect();
-    let expected_count = case.pre.len() + group.len() + if cs != 128 { 1 } else { 0 };
+    let expected_count = n_pre + group.len();
     if want.len() != expected_count {
         return Verdict::Harness(format!("reference delivered {} messages, {} were sent", want.len(), expected_count));
     }
@@ -138,7 +146,8 @@ pub fn eval(case: &Case) -> Verdict {
     }
     obs.class_if(interleaved, "chunks-interleaved");
     obs.class_if(!interleaved, "overlap-free");
-    obs.class_if(!case.pre.is_empty(), "compressed-headers-possible");
+    obs.class_if(!case.pre.is_empty(), "sequential-prefix-on-several-chunk-streams");
+    obs.class_if(dec.iter().any(|d| d.first_fmt == 3), "format-3-new-message");
     obs.class_if(dec.iter().any(|d| d.first_fmt != 0), "compressed-first-chunk");
     obs.class_if(group.len() >= 3, "three-or-more-streams");
     classify_stream(&dec, &mut obs);
@@ -152,7 +161,8 @@ fn gmsg(csids: &'static [u32]) -> BoxedStrategy<GMsg> {
         .boxed()
 }
 
-const CSIDS: &[u32] = &[3, 4, 5, 6, 8, 64, 320];
+// includes pairs that alias under plausible csid-decoding mistakes (264/520, 319/575, 65/320)
+const CSIDS: &[u32] = &[3, 4, 5, 6, 8, 63, 64, 65, 264, 319, 320, 520, 575, 65599];
 
 fn case_strategy(overlap_free: bool) -> BoxedStrategy<Case> {
     let merge = if overlap_free {
@@ -162,7 +172,7 @@ fn case_strategy(overlap_free: bool) -> BoxedStrategy<Case> {
     };
     (
         prop_oneof![2 => Just(128u32), 3 => 1u32..40, 1 => 100u32..400],
-        proptest::collection::vec(gmsg(CSIDS), 0..4),
+        gen::foreign_ops(10, 0, 600),
         proptest::collection::vec(gmsg(CSIDS), 2..5),
         merge,
         gen::partition(),
